@@ -27,8 +27,10 @@ GUARDS = {'all': {'reweighted>=2': 0.04}}
 
 @st.composite
 def cases(draw, tier):
-    case = draw(gen.election_cases(tier=tier, rules=model.GREGORY, chains=True, min_cand=3))
     d = D(draw)
+    if d.p(3):
+        return gen.narrow_chain_case(d)
+    case = draw(gen.election_cases(tier=tier, rules=model.GREGORY, chains=True, min_cand=3))
     # multipliers > 1 are always present: the weight must be truncated before it is multiplied
     if all(m == 1 for m, _ in case['ballots']):
         b = d.choice(case['ballots'])
@@ -69,6 +71,10 @@ def check(case):
         if snap is None:
             continue
         cs = a['cstate']
+        if len(snap) != len(ballots) or (prev is not None and len(prev[1]) != len(snap)):
+            res.fail('ballot-set', 'ballot-set|' + base, 'the election holds %d ballot lines at action %d (%s), %d when the count is over%s' %
+                     (len(snap), i, a['msg'], len(ballots), '' if prev is None else ', %d at the previous action' % len(prev[1])))
+            return res
         # clause 1: tallies of continuing candidates equal the values standing to their credit
         credit = {}
         for bi, (idx, w) in enumerate(snap):
